@@ -4,10 +4,12 @@
 set -u
 ID="${1:?id}"; WS="${2:-/tmp/ag-eval}"; TIER="${3:-quick}"; D=/verif/seeded/$ID
 PROPS=$(python3 -c "import json;m=json.load(open('$D/meta.json'));print(' '.join([m['property']]+m.get('also_check',[])))")
-cd $WS/repo && git checkout -q -- . && git apply "$D/patch.diff" || { echo "patch does not apply"; exit 2; }
+cd $WS/repo && git checkout -q -- . && git checkout -q --detach $(git -C /repo rev-parse HEAD) && git apply "$D/patch.diff" || { echo "patch does not apply"; exit 2; }
 rsync -a --delete --exclude target /verif/sim/src/ $WS/sim/src/
+sed "s#/repo#$WS/repo#g" /verif/sim/Cargo.toml > $WS/sim/Cargo.toml; cp /verif/sim/Cargo.lock $WS/sim/Cargo.lock; cp /verif/target/libdetrand.so $WS/vd/target/
 cp /verif/known_findings.json $WS/vd/; rm -rf $WS/vd/replays; mkdir -p $WS/vd/replays; cp -r /verif/replays/known $WS/vd/replays/
-( cd $WS/sim && CARGO_NET_OFFLINE=true cargo build --offline 2>&1 | grep -E "^error" -A8 | head -20 )
+BERR=$( cd $WS/sim && CARGO_NET_OFFLINE=true cargo build --offline 2>&1 | grep -E "^error" -A8 | head -20 )
+if [ -n "$BERR" ]; then echo "$BERR"; echo "== $ID: BUILD FAILED"; cd $WS/repo && git checkout -q -- .; exit 2; fi
 RES="{"
 for P in $PROPS; do
   case "$P" in
